@@ -18,7 +18,7 @@ fn real(v: &Val, ty: &Ty) -> f64 {
     }
 }
 
-/// three distinct ascending in-range values for a type, from value set `vs` (0 small, 1 extremes, 2 sign-mixed, 3 infinite ends)
+/// three distinct ascending in-range values for a type, from value set `vs` (0 small, 1 extremes, 2 sign-mixed, 3 infinite ends, 4 a NaN between two finite values: NaN is no real value and cannot be a bound)
 fn triple(ty: &Ty, vs: usize) -> [Val; 3] {
     match ty {
         Ty::F32 { .. } => {
@@ -26,7 +26,8 @@ fn triple(ty: &Ty, vs: usize) -> [Val; 3] {
                 0 => [1.5, 2.25, 1000.125],
                 1 => [f32::MIN, f32::MIN_POSITIVE, f32::MAX],
                 2 => [-3.5, -0.0, 7.0],
-                _ => [f32::NEG_INFINITY, 2.0, f32::INFINITY],
+                3 => [f32::NEG_INFINITY, 2.0, f32::INFINITY],
+                _ => [-3.5, f32::NAN, 7.0],
             };
             [Val::F32(t[0]), Val::F32(t[1]), Val::F32(t[2])]
         }
@@ -35,7 +36,8 @@ fn triple(ty: &Ty, vs: usize) -> [Val; 3] {
                 0 => [1.5, 2.25, 1000.125],
                 1 => [f64::MIN, f64::from_bits(1), f64::MAX],
                 2 => [-3.5, 0.0, 1e-300],
-                _ => [f64::NEG_INFINITY, 2.0, f64::INFINITY],
+                3 => [f64::NEG_INFINITY, 2.0, f64::INFINITY],
+                _ => [-3.5, f64::NAN, 7.0],
             };
             [Val::F64(t[0]), Val::F64(t[1]), Val::F64(t[2])]
         }
@@ -128,7 +130,7 @@ pub fn bounds(ctx: &Ctx) {
     // green and blue may have a type of their own (default: the same as red)
     let gt = (colt + ctx.choose("green-type-shift", 6)) % 6;
     let bt = (colt + ctx.choose("blue-type-shift", 6)) % 6;
-    let vs = ctx.choose("value-set", 4);
+    let vs = ctx.choose("value-set", 5);
     let ov_i = ctx.choose("intensity-override", 5);
     let ov_c = ctx.choose("colour-override", 5);
 
@@ -221,6 +223,9 @@ pub fn bounds(ctx: &Ctx) {
         let mut hi: Option<f64> = None;
         for pt in &points {
             let v = real(&pt[k], &proto[k].ty);
+            if v.is_nan() {
+                continue;
+            }
             lo = Some(lo.map_or(v, |l: f64| if v < l { v } else { l }));
             hi = Some(hi.map_or(v, |h: f64| if v > h { v } else { h }));
         }
@@ -234,6 +239,9 @@ pub fn bounds(ctx: &Ctx) {
             (true, Some(g)) => {
                 for (i, n) in names.iter().enumerate() {
                     let (lo, hi) = fold(n);
+                    if lo.is_none() && !points.is_empty() {
+                        continue; // only NaN values: the statement defines no minimum or maximum
+                    }
                     if !num_eq(lo, g[2 * i]) || !num_eq(hi, g[2 * i + 1]) {
                         bad.push(format!("{what}: {n} expected [{lo:?},{hi:?}], stored [{:?},{:?}]", g[2 * i], g[2 * i + 1]));
                     }
@@ -333,6 +341,9 @@ pub fn bounds(ctx: &Ctx) {
                 if let Some(k) = proto.iter().position(|r| r.name == *n) {
                     for pt in &rb.scene.clouds[0].points {
                         let v = real(&pt[k], &proto[k].ty);
+                        if v.is_nan() {
+                            continue; // not a real value: neither inside nor outside
+                        }
                         if b[2 * i].map_or(true, |lo| v < lo) || b[2 * i + 1].map_or(true, |hi| v > hi) {
                             bad.push(format!("point value {v} of {n} lies outside the stored bounds [{:?},{:?}]", b[2 * i], b[2 * i + 1]));
                             return;
